@@ -1,7 +1,7 @@
 #!/bin/bash
 # usage: tools/run_all.sh [quick|thorough]   -- runs every claimed check, prints one line per check
 TIER="${1:-quick}"
-cd /verif
+cd "$(dirname "$0")/.."
 set -o pipefail
 for ID in $(python3 -c "import json; print(' '.join(c['property_id'] for c in json.load(open('MANIFEST.json'))['checks']))"); do
   S=$(date +%s.%N)
